@@ -13,7 +13,8 @@ MANIFEST = {
             "last database call is a ROLLBACK, a granted branch is reported PhaseOne_Failed 1..5 times and never Done, connection closed "
             "unless the ROLLBACK itself failed), C02_user_rollback. Tie: the REAL proxy over fakedb + tcstub with faults ENUMERATED at every "
             "position (BEGIN, image queries, statement, undo PREPARE/EXEC, COMMIT, +ROLLBACK, 4 registration refusals, report failing 1..5 "
-            "times) in autocommit and explicit use; the merged journal (image queries kept as OQuery, metadata erased) replayed through the "
+            "times; connection lost with driver.ErrBadConn / ErrInvalidConn at every call, database/sql's re-execution split into attempts; "
+            "caller's context cancelled at a statement) in autocommit, explicit and pinned-connection use (2-3 consecutive statements on one sql.Conn); the merged journal (image queries kept as OQuery, metadata erased) replayed through the "
             "model in Coq (vm_compute) + the property's clauses and a pooled-connection probe evaluated on the real run.",
     "note": "Trusted: Coq kernel + vm_compute, no axioms; fakedb/tcstub/atrun; fault model 'a failed call is not applied' (lost-reply COMMIT "
             "is outside); the script of a case is the sequence of environment outcomes observed in its own journal.",
@@ -36,24 +37,45 @@ ERR = {1: "journal (BEGIN/queries/statements/UNDO-INSERT/COMMIT/ROLLBACK/Registe
 KIND = {"update": "KUpdate", "delete": "KDelete", "insert": "KInsert"}
 
 
-def project(case):
-    """journal of the use as model events + script + observables"""
-    meta, tr = case["meta"], case["trace"]
+def expand(case):
+    """the uses of a scenario: one, or (pinned connection) one per consecutive autocommit statement"""
+    meta = case["meta"]
     meta["stmts"] = meta.get("stmts") or []
+    ex = meta["extra"]
+    if ex["mode"] != "pinned":
+        return [dict(case, orig=meta, meta=dict(meta, extra=dict(ex, last="1")))]
+    out, n = [], int(ex["uses"])
+    for j in range(n):
+        vex = dict(ex, mode="auto", pinned="1", use_no=str(j), use_path=ex["use_path.%d" % j], dump_pre=ex["dump_pre.%d" % j],
+                   dump_post=ex["dump_post.%d" % j], last="1" if j == n - 1 else "")
+        out.append(dict(case, orig=meta, meta=dict(meta, stmts=[meta["stmts"][j]], extra=vex)))
+    return out
+
+
+def project(case):
+    """journal of the use as model events + script + observables; a list: one projection per attempt
+    (database/sql re-executes a pool statement on a fresh connection after driver.ErrBadConn)"""
+    meta, tr = case["meta"], case["trace"]
     ex = meta["extra"]
     use = U.step_at(tr, ex["use_path"])
     ranges = []
     for j, sm in enumerate(meta["stmts"]):
         st = U.step_at(tr, sm["path"])
         ranges.append((st["seq_from"], st["seq_to"], j))
-    evs = []
+    evs, conns, dead = [], set(), set()
     for e in U.db_events(tr, use["seq_from"], use["seq_to"], keep_reset=False):
         if e["src"] == "db":
             j = e["db"]
             ok = not j.get("err")
             sql = (j.get("sql") or "")
+            conns.add(j["conn"])
+            lost = bool(j.get("injected")) and j.get("err") in ("badconn", "invalidconn")
+            if lost:
+                dead.add(j["conn"])
             if j["kind"] == "BEGIN":
                 evs.append(("db", "OBegin", ok))
+                if lost:
+                    continue
             elif j["kind"] in ("QUERY", "STMT_QUERY"):
                 evs.append(("db", "OQuery", ok))
             elif j["kind"] == "EXEC" and sql.strip().upper() == "ROLLBACK":
@@ -73,6 +95,10 @@ def project(case):
                 evs.append(("db", "ORollback", ok))
             else:
                 evs.append(("db", "OQuery", ok))
+            if lost:
+                # the connection is gone: the server discards its open transaction (the proxy's own rollback
+                # attempts on the dead connection never reach the database)
+                evs.append(("db", "ORollback", True))
         else:
             t = e["tc"]
             if t["kind"] == "BranchRegister":
@@ -111,8 +137,33 @@ def project(case):
             biz.append(j)
     before = {u["branch_id"] for u in pre.get("undo") or []}
     undo = [u["branch_id"] for u in post.get("undo") or [] if u["branch_id"] not in before]
-    is_open = bool(tr.get("pool_returns_in_tx")) or bool(tr.get("open_tx_at_end"))
-    return dict(evs=evs, results=results, biz=biz, undo=undo, open=is_open, rows=rows, committed=committed)
+    if ex.get("last"):
+        is_open = bool(tr.get("pool_returns_in_tx")) or bool(tr.get("open_tx_at_end"))
+    else:
+        # pinned connection, not its last use: is a transaction still open when the next call arrives on it?
+        nxt = next((e["db"] for e in tr["journal"] if e["src"] == "db" and e["seq"] > use["seq_to"] and e["db"]["conn"] in conns
+                    and e["db"]["kind"] not in ("RESET", "CONNECT", "CLOSE")), None)
+        is_open = bool(nxt and (nxt.get("in_tx") or nxt.get("implicit")))
+    if conns and conns <= dead:
+        is_open = False
+    full = dict(evs=evs, results=results, biz=biz, undo=undo, open=is_open, rows=rows, committed=committed, final=True)
+    # attempts: every BEGIN after the first starts a re-execution by database/sql
+    cuts = [i for i, x in enumerate(evs) if x[0] == "db" and x[1] == "OBegin"]
+    if ex["mode"] != "auto" or len(cuts) <= 1:
+        return [full]
+    out = []
+    for n, lo in enumerate(cuts):
+        hi = cuts[n + 1] if n + 1 < len(cuts) else len(evs)
+        part = evs[lo:hi]
+        if n + 1 < len(cuts):
+            granted = [x[1] for x in part if x[0] == "reg" and x[1] is not None]
+            out.append(dict(evs=part, results=[False], biz=[], undo=[b for b in undo if b in granted], open=False, rows=rows,
+                            committed=any(x[0] == "db" and x[1] == "OCommit" and x[2] for x in part), final=False))
+        else:
+            granted_before = [x[1] for x in evs[:lo] if x[0] == "reg" and x[1] is not None]
+            out.append(dict(full, evs=part, undo=[b for b in undo if b not in granted_before],
+                            committed=any(x[0] == "db" and x[1] == "OCommit" and x[2] for x in part)))
+    return out
 
 
 def ev_term(x):
@@ -147,6 +198,8 @@ def oracle(case, p):
     evs = p["evs"]
     malformed = meta["stream"] == "malformed"
     stmt_ok = [U.step_at(tr, sm["path"])["class"] == "ok" for sm in meta["stmts"]]
+    if ex["mode"] == "auto":
+        stmt_ok = [p["results"][0]]
     rows_recorded = any(ok and sm["nrows"] for ok, sm in zip(stmt_ok, meta["stmts"]))
     # order
     for i, x in enumerate(evs):
@@ -196,7 +249,7 @@ def oracle(case, p):
     if p["open"] and not rb_failed:
         out.append("the connection went back to the pool inside an open transaction")
     # probe: the next user of the pooled connection sees the committed state only, and commits only its own write
-    if not rb_failed:
+    if not rb_failed and ex.get("last") and p.get("final") and not ex.get("pinned_dirty"):
         q = U.step_at(tr, ex["probe_q"])
         seen = {int(r[0]["v"]): int(r[1]["v"]) for r in q.get("rows") or []} if q["class"] == "ok" else None
         if seen != p["rows"]:
@@ -221,27 +274,42 @@ def run(chk, only=None):
     else:
         cases = U.replay_atp(chk, only)
     findings = vlib.known_findings("C02")
-    projs = []
+    views, projs = [], []
     for c in cases:
         if c["trace"].get("setup_err"):
             raise vlib.Broken("scenario setup failed: " + c["trace"]["setup_err"])
-        projs.append(project(c))
+        dirty = False
+        for v in expand(c):
+            if dirty:
+                v["meta"]["extra"]["pinned_dirty"] = "1"
+            for p in project(v):
+                views.append(v)
+                projs.append(p)
+                # a failed rollback leaves the pinned connection inside a transaction: later uses are outside the claim
+                dirty = dirty or any(x[0] == "db" and x[1] == "ORollback" and not x[2] for x in p["evs"])
+    n_scenarios = len(cases)
+    cases = views
     seen = set()
     nfail = 0
     for c, p in zip(cases, projs):
+        if c["meta"]["extra"].get("pinned_dirty"):
+            continue
         o = oracle(c, p)
         if o:
             nfail += 1
             if o[0][:50] in seen:
                 continue
             seen.add(o[0][:50])
-            chk.violation("C02 fails on the real code (%s, fault %s): %s" % (c["meta"]["extra"]["mode"], c["meta"]["extra"]["fault"], "; ".join(o[:3])),
-                          dict(U.slim_case(c), oracle=o[:6], journal=[ev_term(x) for x in p["evs"]]), True)
+            chk.violation("C02 fails on the real code (%s%s, fault %s): %s" % (c["meta"]["extra"]["mode"], " pinned use " + c["meta"]["extra"]["use_no"] if c["meta"]["extra"].get("pinned") else "",
+                                                                             c["meta"]["extra"]["fault"], "; ".join(o[:3])),
+                          dict(scenario=c["scenario"], meta=c["orig"], oracle=o[:6], journal=[ev_term(x) for x in p["evs"]]), True)
+    keep = [i for i, c in enumerate(cases) if not c["meta"]["extra"].get("pinned_dirty")]
+    cases, projs = [cases[i] for i in keep], [projs[i] for i in keep]
     mism = vlib.eval_mismatches("C02", HEADER, [case_term(c, p) for c, p in zip(cases, projs)], case_type="ccase", shard=60)
     if not chk.violations:
         for i in sorted(mism, key=lambda i: len(projs[i]["evs"])):
             chk.violation("correspondence between the phase-one machine and the code broke (%s)" % "; ".join(ERR[e] for e in mism[i]),
-                          dict(U.slim_case(cases[i]), model_disagreements=[ERR[e] for e in mism[i]], journal=[ev_term(x) for x in projs[i]["evs"]],
+                          dict(scenario=cases[i]["scenario"], meta=cases[i]["orig"], model_disagreements=[ERR[e] for e in mism[i]], journal=[ev_term(x) for x in projs[i]["evs"]],
                                results=projs[i]["results"], durable=[projs[i]["biz"], projs[i]["undo"]], correspondence="At/CommitCases.v check_case"), False)
             break
     if not pr["ok"] and not chk.violations:
@@ -255,7 +323,7 @@ def run(chk, only=None):
                or any(x[0] == "rep" and not x[2] for x in p["evs"])]
     chk.coverage.update({
         "trusted_base": TRUSTED,
-        "evaluations": len(cases),
+        "evaluations": len(cases), "scenarios": n_scenarios,
         "distinct_nontrivial": vlib.distinct([[ev_term(x) for x in p["evs"]] for p in nontriv]),
         "rule": "every fault position enumerated: 4 autocommit shapes (update with/without rows, delete, insert) x 23 fault sets (each database call "
                 "of the bracket incl. undo PREPARE/EXEC, COMMIT, +ROLLBACK pairs, 4 registration refusals, report failing 1/2/5 times with and "
